@@ -142,7 +142,7 @@ Proof.
   split; [|split; [|split; [|splits; simpl; try congruence]]].
   - apply add_var_inv; [exact I3|exact Hin| |left; reflexivity].
     rewrite EV. intro Hx. apply Hf. apply used_vn; assumption.
-  - eapply roleinv_same; [exact R2| | |]; simpl; try congruence. rewrite ED. apply incl_refl.
+  - eapply roleinv_same; [exact R2| | |]; simpl; try congruence. unfold DN; simpl. rewrite A2. apply incl_refl.
   - apply add_var_ext; [|exact Hfw]. eapply alloc_ext; [exact E3|exact X2].
   - exists bv, bdim. simpl. splits; try reflexivity; try assumption. rewrite A3, F5. reflexivity.
 Qed.
